@@ -7,7 +7,9 @@ import (
 	"encoding/json"
 	"fmt"
 	"io"
+	"os"
 	"strings"
+	"syscall"
 
 	"git.metabarcoding.org/obitools/obitools4/obitools4/pkg/obiformats"
 	"git.metabarcoding.org/obitools/obitools4/obitools4/pkg/obiiter"
@@ -42,11 +44,12 @@ type writerPlan struct {
 	CSVAuto    bool
 	Recs       []Rec
 	LongSeq    bool
+	Giant      int // >0: one batch formats to more than Giant bytes (a block larger than any buffer of the output stack)
 }
 
 func (p writerPlan) sample() map[string]any {
 	return map[string]any{"writer": wkNames[p.Kind], "batches": p.N, "sizes": p.Sizes, "arrival": permString(p.Arrival),
-		"workers": p.Workers, "compressed": p.Compressed, "dont_close": p.DontClose, "csv_auto": p.CSVAuto, "records": len(p.Recs)}
+		"workers": p.Workers, "compressed": p.Compressed, "dont_close": p.DontClose, "csv_auto": p.CSVAuto, "records": len(p.Recs), "giant_batch_bytes": p.Giant}
 }
 
 var sizeTable = []int{1, 0, 2, 3}
@@ -78,7 +81,49 @@ func drawWriterPlan(t *simrt.Tape, maxN int, big bool) writerPlan {
 		lo, hi = 900, 2500
 	}
 	p.Recs = genRecs(t, total, 0, p.Kind == wkFastq, lo, hi)
+	if !big && p.N >= 2 && t.Choose(64) == 0 {
+		makeGiant(t, &p)
+	}
 	return p
+}
+
+// makeGiant turns one batch of the plan into a block of 8-11 MB next to batches of a few
+// bytes: far more than the bufio / pgzip / chunk buffers of the output stack, so that any
+// size-dependent path of that stack (direct writes of large blocks, buffer growth) is taken
+// while small blocks are still buffered.
+func makeGiant(t *simrt.Tape, p *writerPlan) {
+	size := (8 << 20) + t.Choose(3<<20)
+	switch p.Kind {
+	case wkChunk:
+		var cand []int
+		for i, s := range p.Sizes {
+			if s > 0 {
+				cand = append(cand, i)
+			}
+		}
+		if len(cand) == 0 {
+			return
+		}
+		g := cand[t.Choose(len(cand))]
+		p.Sizes[g] = size/len(fmt.Sprintf("chunk%d;", g)) + 1
+	case wkFasta, wkFastq, wkAuto:
+		if len(p.Recs) == 0 {
+			return
+		}
+		g := t.Choose(len(p.Recs))
+		block := genSeq(t, 97, 97, dna)
+		p.Recs[g].Seq = strings.Repeat(block, size/97+1)
+		if p.Recs[g].Qual != nil {
+			q := make([]byte, len(p.Recs[g].Seq))
+			for i := range q {
+				q[i] = byte(2 + (i*7)%38)
+			}
+			p.Recs[g].Qual = q
+		}
+	default:
+		return
+	}
+	p.Giant = size
 }
 
 // enumerated cases of C04: every arrival permutation for n <= maxPerm (no empty batch, one
@@ -164,10 +209,17 @@ func chunkText(i, size int) []byte {
 
 // runWriter executes one writer run under the simulator.
 func runWriter(rc *RunCtx, p writerPlan, w *simrt.SimWriteCloser) SimResult {
-	batches := makeBatches(p.Recs, p.Sizes, "sim")
+	var batches []obiiter.BioSequenceBatch
+	if p.Kind != wkChunk {
+		batches = makeBatches(p.Recs, p.Sizes, "sim")
+	}
 	// sub-statement scheduling points inside the chunk writer: "main returns before the writer
 	// goroutine has closed the file" must be a reachable interleaving
-	return rc.Sim(SimOpts{YieldDensity: rc.Sched.Choose(4)}, func() {
+	density := rc.Sched.Choose(4)
+	if p.Giant > 0 {
+		density = 0 // per-nucleotide loops of a 10 MB record would exhaust the step budget
+	}
+	return rc.Sim(SimOpts{YieldDensity: density}, func() {
 		switch p.Kind {
 		case wkChunk:
 			ch, _ := obiformats.WriteSeqFileChunk(w, true)
@@ -211,11 +263,15 @@ func gunzip(b []byte) ([]byte, error) {
 // expectedText is the concatenation, in batch-number order, of the text of each batch.
 func expectedText(p writerPlan) []byte {
 	var buf bytes.Buffer
-	batches := makeBatches(p.Recs, p.Sizes, "sim")
-	for i, b := range batches {
-		switch p.Kind {
-		case wkChunk:
+	if p.Kind == wkChunk {
+		for i := range p.Sizes {
 			buf.Write(chunkText(i, p.Sizes[i]))
+		}
+		return buf.Bytes()
+	}
+	batches := makeBatches(p.Recs, p.Sizes, "sim")
+	for _, b := range batches {
+		switch p.Kind {
 		case wkFasta, wkAuto:
 			buf.Write(obiformats.FormatFastaBatch(b, obiformats.FormatFastSeqJsonHeader, false).Bytes())
 		case wkFastq:
@@ -371,6 +427,9 @@ func runC04(rc *RunCtx) {
 			}
 		}
 	}
+	if p.Giant > 0 {
+		rc.Probe("batch_larger_than_8MB_next_to_small_ones")
+	}
 	rc.Out.Nontrivial = p.N >= 2 && (reordered || p.Workers > 1)
 	rc.Out.Key = fmt.Sprintf("%s/%v/%s/w%d/z%v/%s", kind, p.Sizes, permString(p.Arrival), p.Workers, p.Compressed, res.Sig)
 	if !rc.Liveness(res, "C04/"+kind) {
@@ -467,6 +526,7 @@ func runC18(rc *RunCtx) {
 	var p writerPlan
 	w := simrt.NewSimWriteCloser()
 	faultKind := "write"
+	errName := "injected"
 	switch mode {
 	case 1:
 		p = variantPlan(t.Choose(nWriterKinds*2 - 1))
@@ -524,8 +584,14 @@ func runC18(rc *RunCtx) {
 			w.FailAt = t.Choose(L + 1)
 		}
 		rc.Probe(fmt.Sprintf("output_size_class_%s", sizeClass(L)))
+		// what the endpoint answers: the simulator's own error, or one of the errors a real
+		// file, pipe or socket gives (a failure is a failure, whatever its errno)
+		errno := t.Choose(len(endpointErrors))
+		w.Err = endpointErrors[errno].err
+		errName = endpointErrors[errno].name
 	}
 	sm := p.sample()
+	sm["error"] = errName
 	sm["fail_at"] = w.FailAt
 	sm["fail_close"] = w.FailClose
 	rc.Out.Sample = sm
@@ -545,7 +611,9 @@ func runC18(rc *RunCtx) {
 			phase = "first-endpoint-write"
 		}
 		rc.Fault("write_error_phase_" + phase)
+		rc.Fault("write_error_errno_" + errName)
 	} else if w.FiredClose {
+		rc.Fault("close_error_errno_" + errName)
 		rc.Fault("close_error_" + kind + "_" + gz)
 	}
 	rc.Out.Nontrivial = fired
@@ -573,8 +641,22 @@ func runC18(rc *RunCtx) {
 		return
 	}
 	rc.Violate(fmt.Sprintf("C18/silent-loss/%s/%s/%s", kind, gz, phase),
-		"injected %s fault (fail_at=%d fail_close=%v) but the writer returned normally: endpoint accepted %d bytes in %d writes, Close calls=%d; fatal messages: %q",
+		"injected %s fault (error "+errName+", fail_at=%d fail_close=%v) but the writer returned normally: endpoint accepted %d bytes in %d writes, Close calls=%d; fatal messages: %q",
 		faultKind, w.FailAt, w.FailClose, len(w.Buf), w.Writes, w.Closes, res.FatalMsg)
+}
+
+var endpointErrors = []struct {
+	name string
+	err  error
+}{
+	{"injected", nil},
+	{"EPIPE", &os.PathError{Op: "write", Path: "/dev/stdout", Err: syscall.EPIPE}},
+	{"ENOSPC", &os.PathError{Op: "write", Path: "out.fasta", Err: syscall.ENOSPC}},
+	{"EIO", &os.PathError{Op: "write", Path: "out.fasta", Err: syscall.EIO}},
+	{"EDQUOT", &os.PathError{Op: "write", Path: "out.fasta", Err: syscall.EDQUOT}},
+	{"ECONNRESET", &os.PathError{Op: "write", Path: "|1", Err: syscall.ECONNRESET}},
+	{"ErrClosedPipe", io.ErrClosedPipe},
+	{"ErrShortWrite", io.ErrShortWrite},
 }
 
 func firstFailedWrite(w *simrt.SimWriteCloser) int {
